@@ -3,7 +3,11 @@ Proof gate: Properties/C01*.v (assembly / shape theorems of the modelled vectori
 vectorizer of the zoo, fitted with random parameters, transform applied to a SECOND input X2 that contains unseen
 tokens / labels / characters / phrases, empty items and values outside the training range; oracle = the property text:
 no exception, one row per item (one per fitted vocabulary entry for the co-occurrence family), fitted width,
-unseen vocabulary ignored (transform(X2) == transform(X2 with unseen tokens deleted) when no mask is configured)."""
+unseen vocabulary ignored (transform(X2) == transform(X2 with unseen tokens deleted) when no mask is configured).
+For the co-occurrence family and NgramVectorizer (Properties/C01_cooc.v, C01_ngram_mask.v) a second stream walks the
+enumerated mask x pruning grid of the zoo for every driver (harness/impl/c01_cooc.py): fitted shape from the fitted
+dictionaries, unseen tokens deleted / replaced by the mask string give the same matrix, a corpus of unseen tokens only
+gives the zero matrix."""
 import glob
 import os
 from . import common as C
@@ -74,12 +78,128 @@ def check_record(ctx, name, seed, r):
                        dict(case, transform=str(tx)[:400], stripped=str(ts)[:400]))
 
 
+COOC = ["TokenCooccurrenceVectorizer", "TimedTokenCooccurrenceVectorizer", "MultiSetCooccurrenceVectorizer",
+        "NgramCooccurrenceVectorizer"]
+# harness/impl/zoo.py enumerates mask setting x pruning on 12 consecutive seeds per co-occurrence driver (x 6 (n_iter,
+# epsilon) settings on 72), and size x behaviour x mask setting x pruning of NgramVectorizer on 36
+COOC_GRID, COOC_EM, NGRAM_GRID = 12, 6, 36
+
+
+def check_cooc_record(ctx, name, seed, r, interp):
+    """Properties/C01_cooc.v / C01_ngram_mask.v evaluated on the implementation (harness/impl/c01_cooc.py)."""
+    case = {"stage": "oracle-cooc", "case": [name, seed], "params": r.get("params"),
+            "mode": "NUMBA_DISABLE_JIT=1" if interp else "compiled"}
+    if r.get("harness_error"):
+        ctx.report("harness error on %s/%d: %s %s" % (name, seed, r.get("err"), r.get("msg")), dict(case, result=r), found_input=False)
+        return False
+    ft, tx = r.get("fit_transform"), r.get("transform_x2")
+    if Z.is_err(ft):
+        ctx.dist("fit_raised:" + name)
+        return False
+    if Z.is_err(tx):
+        ctx.report("%s(%s).transform(X') raised %s: %s" % (name, r.get("params"), tx["err"], tx["msg"]), dict(case, result=tx))
+        return True
+    masked = "mask_string" in (r.get("params") or {})
+    if name == "NgramVectorizer":
+        def want(n_items):
+            return [n_items, r["n_columns"]]
+    else:
+        rows = r.get("n_rows_fitted", r["n_dict"])
+        def want(n_items):
+            return [rows, r["n_dict"] * r["n_blocks"]]
+        if r["n_columns"] != r["n_dict"] * r["n_blocks"]:
+            ctx.report("%s: column_label_dictionary_ has %d entries for %d tokens x %d blocks" % (name, r["n_columns"], r["n_dict"], r["n_blocks"]), case)
+            return True
+    if ft["shape"][1] != want(0)[1]:
+        ctx.report("%s: fitted matrix has %d columns, the fitted dictionaries give %d" % (name, ft["shape"][1], want(0)[1]), case)
+        return True
+    if masked and not r.get("mask_is_last"):
+        ctx.report("%s(%s): the mask entry is not the last entry of the fitted dictionary" % (name, r.get("params")), case)
+        return True
+    if tx["shape"] != want(r["n_items"]):
+        ctx.report("%s(%s): transform(X') has shape %s, the fitted space is %s" % (name, r.get("params"), tx["shape"], want(r["n_items"])),
+                   dict(case, fitted_shape=ft["shape"]))
+        return True
+    tv = r.get("transform_variant")
+    if tv is not None:
+        d = Z.diff(tx, tv, r["exact"], r["rtol"])
+        if d:
+            ctx.report("%s(%s): transform(X') != transform(X' with the %s): %s" % (name, r.get("params"), r["variant"], d),
+                       dict(case, transform=str(tx)[:400], variant=str(tv)[:400]))
+            return True
+        ctx.dist("cooc-variant:" + ("masked" if masked else "deleted"))
+    else:
+        ctx.dist("cooc-variant-skipped")
+    tu = r.get("transform_all_unseen")
+    if Z.is_err(tu):
+        ctx.report("%s(%s).transform(unseen tokens only) raised %s: %s" % (name, r.get("params"), tu["err"], tu["msg"]), dict(case, result=tu))
+        return True
+    if tu["shape"] != want(r.get("n_items_all_unseen", 0)):
+        ctx.report("%s(%s): transform(unseen tokens only) has shape %s, the fitted space is %s" % (
+            name, r.get("params"), tu["shape"], want(r.get("n_items_all_unseen", 0))), case)
+        return True
+    if not masked and tu["triples"]:
+        ctx.report("%s(%s): a corpus of unseen tokens only produced non-zero cells %s" % (name, r.get("params"), tu["triples"][:5]), case)
+    return True
+
+
+def run_cooc(ctx, replay_case=None):
+    """The co-occurrence family and NgramVectorizer over the enumerated grid: all cases interpreted
+    (NUMBA_DISABLE_JIT=1, python semantics of the same source), a prefix of each driver's walk also compiled."""
+    if replay_case is not None:
+        groups = [([tuple(replay_case["case"])], replay_case.get("mode") != "compiled")]
+    else:
+        n_int = COOC_GRID * 3 if ctx.quick else COOC_GRID * COOC_EM * 3
+        # compiled co-occurrence cases of the quick tier are those of the zoo stream above (3 per driver, same oracle for
+        # shape and deleted tokens); the thorough tier adds a compiled prefix of this walk
+        n_jit = 0 if ctx.quick else 24
+        bases = {n: 1000 * ctx.rng.randrange(1000) for n in COOC + ["NgramVectorizer"]}
+        groups = [([(n, bases[n] + i) for i in range(n_int)], True) for n in COOC]
+        groups += [([(n, bases[n] + i) for i in range(n_jit)], False) for n in COOC if n_jit]
+        groups += [([("NgramVectorizer", bases["NgramVectorizer"] + i) for i in range(NGRAM_GRID * (1 if ctx.quick else 4))], False)]
+    from concurrent.futures import ThreadPoolExecutor
+    with ThreadPoolExecutor(max_workers=10) as ex:
+        futs = [ex.submit(C.run_impl, "c01_cooc", [list(c) for c in g], {"NUMBA_DISABLE_JIT": "1"} if interp else None, 2400)
+                for g, interp in groups]
+        results = [f.result() for f in futs]
+    return groups, results
+
+
+def judge_cooc(ctx, groups, results):
+    compiled = set(c for g, interp in groups if not interp for c in g)
+    for (g, interp), (res, info) in zip(groups, results):
+        res = res or []
+        if len(res) != len(g):
+            ctx.report("implementation child died (rc=%s) on case %s: %s" % (info["rc"], g[len(res)], info["tail"][-500:]),
+                       {"stage": "impl-crash", "case": list(g[len(res)])}, found_input=True)
+        ctx.coverage["oracle"].setdefault("cooc_child_wall_s", []).append([g[0][0], "interpreted" if interp else "compiled", info.get("wall_s")])
+        for (name, seed), r in zip(g, res):
+            if interp and (name, seed) in compiled:
+                continue
+            p = r.get("params") or {}
+            kind = "cooc-grid:%s mask=%s nullify=%s prune=%s%s" % (
+                name, "mask_string" in p, p.get("nullify_mask") == "True",
+                "+".join(sorted(q for q in p if "occurrences" in q or "unique" in q)) or "none",
+                " (NUMBA_DISABLE_JIT=1)" if interp else "")
+            nontrivial = check_cooc_record(ctx, name, seed, r, interp)
+            ctx.count_case(["cooc", name, seed], nontrivial=bool(nontrivial and r.get("n_unseen_tokens")), kind=kind)
+
+
 def run(ctx, replay=None):
     extra = sorted(os.path.basename(p)[:-2] for p in glob.glob(os.path.join(C.COQ, "theories", "Properties", "C01_*.v")))
     C.run_gate(ctx, extra_props=extra)
     per = 3 if ctx.quick else 30
+    cooc_replay = replay if (replay and replay.get("stage") == "oracle-cooc") else None
+    if cooc_replay:
+        judge_cooc(ctx, *run_cooc(ctx, cooc_replay))
+        C.gate_violation(ctx)
+        return ctx.finish("proof")
     groups = [[tuple(replay["case"])]] if replay else Z.make_groups(ctx, per, only=ROW_PRODUCING, light_factor=2)
-    results = Z.run_groups(groups)
+    from concurrent.futures import ThreadPoolExecutor
+    with ThreadPoolExecutor(max_workers=2) as ex:
+        f_cooc = None if replay else ex.submit(run_cooc, ctx)
+        results = Z.run_groups(groups)
+        cooc = f_cooc.result() if f_cooc else None
     ctx.coverage["rule"] = ("zoo case = (estimator, seed): random parameters, training input X and a second input X' with unseen "
                             "vocabulary / empty items / out-of-range values; non-trivial = transform(X') returned >= 1 row")
     for g, (res, info) in zip(groups, results):
@@ -90,6 +210,8 @@ def run(ctx, replay=None):
         for (name, seed), r in zip(g, res):
             ctx.count_case([name, seed], nontrivial=not Z.is_err(r.get("transform_x2", {"err": 1})), kind=name)
             check_record(ctx, name, seed, r)
+    if cooc:
+        judge_cooc(ctx, *cooc)
     # per-vectorizer model-level checks contributed with their kernels
     try:
         from . import c06
